@@ -13,9 +13,10 @@ const (
 	pLit    = iota // literal text
 	pDec           // decimal rendering of a signed 64-bit term (strconv.FormatInt(t,10))
 	pQuat          // base-4 rendering of a signed 64-bit term (non-negative by obligation)
-	pDigit         // one base-4 digit character, value term in 0..3
+	pDigit         // one digit character, value term in 0..9 (0..3 for base-4 renderings)
 	pTok           // arbitrary separator-free caller text with solver-chosen attributes
 	pOpaque        // text we know nothing about (fmt.Sprintf results); only identity
+	pRune          // string(r) for a symbolic rune r: only comparison with literals
 )
 
 type Piece struct {
@@ -62,7 +63,7 @@ func normStr(ps []Piece) Str {
 			p = Piece{K: pLit, S: strconv.FormatInt(p.I.sval(), base)}
 		}
 		if p.K == pDigit && p.I.IsC {
-			p = Piece{K: pLit, S: strconv.FormatInt(p.I.sval(), 4)}
+			p = Piece{K: pLit, S: strconv.FormatInt(p.I.sval(), 10)}
 		}
 		if p.K == pLit {
 			if p.S == "" {
